@@ -78,6 +78,8 @@ def run_variant(v, prop):
     res = {"id": v["id"], "kind": v["kind"], "rc": rc, "findings": fs}
     if v["kind"] == "seeded":
         want = v.get("rule")
+        if isinstance(want, dict):
+            want = want.get(prop)
         hit = [f for f in fs if want is None or (" rule=%s " % want) in f]
         if rc == 1 and hit:
             res["status"] = "detected"
